@@ -273,9 +273,9 @@ namespace adept {
 						  const Vector& min_x,
 						  const Vector& max_x)
   {
-    if (any(min_x >= max_x)
-	|| min_x.size() != x.size()
-	|| max_x.size() != x.size()) {
+    if (min_x.size() != x.size()
+	|| max_x.size() != x.size()
+	|| any(min_x >= max_x)) {
       return MINIMIZER_STATUS_INVALID_BOUNDS;
     }
 
